@@ -3,7 +3,8 @@
 // returned or the thrown error, and per JSON document the validator's verdicts and the reference's;
 // py/post_schema.py (python jsonschema, Draft 2020-12) supplies the schema's verdicts and judges.
 import fs from "node:fs";
-import { corpus, valuesFor, kindsHistogram, h8 } from "../lib/corpus.mjs";
+import { corpus, programItems, valuesFor, kindsHistogram, h8 } from "../lib/corpus.mjs";
+import * as A from "../gen/ast.mjs";
 import { rt, STRING_FORMATS, NUMBER_FORMATS } from "../lib/loader.mjs";
 import { shallow } from "../lib/localise.mjs";
 import { renderType } from "../gen/ast.mjs";
@@ -100,7 +101,27 @@ export async function run(ctx) {
   const fd = recPath ? fs.openSync(recPath, "w") : null;
   const nProgs = ctx.share(2400, 40000);
   let rid = 0;
-  for await (const item of corpus(ctx, { label: "C02", count: nProgs, features: FEATURES })) {
+  // programs kept from repaired defects (shard 0), then the random corpus
+  const probePrograms = () => {
+    const T = A;
+    const G = { d: "alias", name: "G", params: ["X"], t: T.union([T.obj([T.prop("_tag", T.lit("Left")), T.prop("left", T.ref("X"))]), T.obj([T.prop("_tag", T.lit("Right")), T.prop("right", T.ref("X"))])]) };
+    const inst = (x) => T.ref("G", [x]);
+    return [
+      // literal arguments whose 32-bit hashes used to coincide: each instance needs its own variant definitions
+      { decls: [G], parsers: [["A", T.lit(0)], ["B", T.lit("")], ["C", T.lit(97)], ["D", T.lit("a")], ["E", T.lit(true)], ["F", T.lit("true")], ["H", T.lit(1.5)], ["I", T.lit(1)]].map(([name, x]) => ({ name, t: inst(x) })) },
+      // a string hole spans line breaks; the pattern must as well
+      { decls: [], parsers: [{ name: "A", t: { k: "tpl", parts: ["a", T.kw("string")] } }, { name: "B", t: T.obj([T.prop("p", { k: "tpl", parts: [T.kw("string"), ".", T.kw("number")] })]) }] },
+      // what JSON cannot carry makes schema() throw, next to printable parsers
+      { decls: [], parsers: [{ name: "A", t: T.obj([T.prop("name", T.kw("string")), T.prop("cb", { k: "fn" })]) }, { name: "B", t: T.obj([T.prop("name", T.kw("string"))]) }] },
+      // declaration names that are members of Object.prototype or contain "$$"
+      { decls: [{ d: "alias", name: "hasOwnProperty", params: [], t: T.obj([T.prop("a", T.kw("string"))]) }, { d: "alias", name: "constructor", params: [], t: T.obj([T.prop("b", T.ref("hasOwnProperty"), true)]) }, { d: "alias", name: "Price$$", params: [], t: T.obj([T.prop("amount", T.kw("number"))]) }, { d: "alias", name: "Price$", params: [], t: T.obj([T.prop("other", T.kw("string"))]) }], parsers: [{ name: "A", t: T.ref("constructor") }, { name: "B", t: T.obj([T.prop("total", T.ref("Price$$")), T.prop("note", T.ref("Price$"))]) }, { name: "C", t: T.ref("hasOwnProperty") }] },
+    ];
+  };
+  async function* items() {
+    if (ctx.shard === 0) yield* programItems(ctx, probePrograms(), "C02-probes");
+    yield* corpus(ctx, { label: "C02", count: nProgs, features: FEATURES });
+  }
+  for await (const item of items()) {
     const { prog, parsers, ref } = item;
     for (const ps of prog.parsers) {
       const core = prog.cores.get(ps.name);
